@@ -34,7 +34,7 @@ type roundSpec struct {
 	// Tight derives the resource plan from a small memory budget (what an
 	// operator's GOMEMLIMIT does), which lowers the UDP slab cap to ~130 and
 	// the socket fan-out to 4, so shedding and slab reuse are reachable.
-	Tight    bool `json:"tight"`
+	Tight bool `json:"tight"`
 	// DNSSEC runs the stack with local validation "on": what admits the stub's
 	// validated NXDOMAIN into the cache's subtree-cut index (RFC 8020 rung) and
 	// makes the cached-failure rung depend on its denial-miss witness.
@@ -76,6 +76,7 @@ type roundEnv struct {
 	addrs   stack.Addrs
 	tlsConf *tls.Config
 	groups  []*groupState
+	gmu     sync.RWMutex // guards groups while runRound is still building them (the stub may already be reached by stray traffic)
 	qtmo    time.Duration
 	stop    chan struct{}
 
@@ -169,8 +170,11 @@ func (env *roundEnv) stub(_ context.Context, req *stack.StubRequest) *stack.Stub
 		rep.Gate = *env.slowGate.Load()
 	case "g":
 		l := dns.SplitDomainName(strings.ToLower(name))
-		if i, err := strconv.Atoi(strings.TrimPrefix(l[2], "g")); err == nil && i >= 0 && i < len(env.groups) {
-			g := env.groups[i]
+		env.gmu.RLock()
+		groups := env.groups
+		env.gmu.RUnlock()
+		if i, err := strconv.Atoi(strings.TrimPrefix(l[2], "g")); err == nil && i >= 0 && i < len(groups) {
+			g := groups[i]
 			g.waiters.Add(1)
 			rep.Gate = g.gate
 		}
@@ -318,7 +322,9 @@ func runRound(r *vlib.Run, rs *roundSpec) {
 		for _, p := range perm[:gs.members] {
 			assigned[open[p]] = append(assigned[open[p]], &gs.sharedGroup)
 		}
+		env.gmu.Lock()
 		env.groups = append(env.groups, gs)
+		env.gmu.Unlock()
 	}
 	for _, s := range specs {
 		per := rs.PerMsg
